@@ -1,11 +1,48 @@
-/- Spec-driver operations of cluster C (see Driver/Main.lean). Imports Spec/* only — never Gen or Model. -/
-import PdbVerif.Driver.Json
+/- Spec-driver operations of cluster C (contacts: C05, C14). Imports Spec/* only — never Gen or Model. -/
+import PdbVerif.Driver.CommonC
+import PdbVerif.Spec.C05
+import PdbVerif.Spec.C14
 
 namespace Driver.SpecC
-open Lean Driver
+open Lean Driver Driver.CommonC Spec.Contact
+
+/-- the case carries the backbone names (the harness reads them from the library object) -/
+def params (j : Json) (r : RawArgs) : Except String Params := do
+  let bb ← jArr j "backbone"
+  let names ← bb.toList.mapM (fun x => do let s ← asStr x; pure s.toList)
+  pure { backbone := names, filters := { bb := r.bb, noH := r.noH }, cutoff := r.cutoff }
+
+/-- `"NA"`: the case lies outside what the property speaks about (unknown chain, a chain paired with itself,
+    all chains of a structure with fewer than two chains) -/
+def na : Json := .str "NA"
+
+def inDomain (r : RawArgs) : Bool :=
+  let cs := chainIDs r.atoms
+  if r.allchains then decide (cs.length ≥ 2)
+  else cs.contains r.chain1 && cs.contains r.chain2 && r.chain1 != r.chain2
+
+def specSets (P : Params) (r : RawArgs) : List (Py.Str × List Nat) :=
+  let sets := if r.allchains then allChains P r.atoms else twoChains P r.atoms r.chain1 r.chain2
+  if r.extend then sets.map (fun e => (e.1, extension P.backbone r.atoms e.2 r.bb)) else sets
+
+def specPairs (P : Params) (r : RawArgs) : List (Nat × List Nat) :=
+  if r.allchains then pairMapAll P r.atoms else pairMap P r.atoms r.chain1 r.chain2
 
 def op (name : String) (j : Json) : Except String (Option Json) := do
   match name with
+  | "contact_atoms" =>
+    let r ← rawArgs j
+    let P ← params j r
+    if !inDomain r then pure (some na)
+    else if r.pairs then pure (some (pairsJ (specPairs P r)))
+    else pure (some (chainsJ (specSets P r)))
+  | "contact_residues" =>
+    let r ← rawArgs j
+    let P ← params j r
+    if !inDomain r then pure (some na)
+    else if r.pairs then pure (some (resPairsJ (residuePairMap r.atoms (specPairs P r))))
+    else pure (some (resChainsJ (residueSets r.atoms (specSets P { r with extend := false }))))
+  | "backbone_names" => pure (some (.str "NA"))
   | _ => pure none
 
 end Driver.SpecC
